@@ -2,11 +2,17 @@
 // observation gets through GKFparser::process_*/finish_obs (incl. Cluster::scaleCov), axes/angles
 // -> consistent()/y_sign(), and remove_inconsistency()/return_inconsistency() on a parsed network.
 // Line protocol: see lean/Driver/Input.lean (same operations, same output shapes).
+// Oracle-only operation (no model side, compared with the mathematical reduction by tools/props/c07.py):
+//   wrap <Direction|Angle|Azimuth> <cs 0..7> <rh 0|1> <val> <ori> <tx> <ty> <fx> <fy>
+//     station at (0,0), target (bs) at (tx,ty), fs at (fx,fy), stand-point orientation <ori>; the real
+//     LocalLinearization is applied; prints  lin <stored value> <rhs> <xNorthAngle>
 #include <cmath>
 #include <fstream>
 #include <memory>
 #include <sstream>
 #include <gnu_gama/gon2deg.h>
+#include <gnu_gama/local/cluster.h>
+#include <gnu_gama/local/local_linearization.h>
 #include <gnu_gama/local/network.h>
 #include <gnu_gama/local/pointid.h>
 #include <gnu_gama/xml/gkfparser.h>
@@ -172,6 +178,38 @@ int main()
       if (!ok || IS->PD.empty()) { std::cout << "error\n"; continue; }
       std::cout << "ok " << IS->consistent() << " " << vp::hex(IS->y_sign()) << " " << IS->PD.right_handed_coordinates()
                 << " " << IS->PD.left_handed_coordinates() << "\n";
+    } else if (t[0] == "wrap" && t.size() == 10) {
+      try {
+        PointData PD;
+        ObservationData OD;
+        PD.local_coordinate_system = LocalCoordinateSystem::CS(std::stoi(t[2]));
+        if (t[3] == "1") PD.setAngularObservations_Righthanded();
+        else             PD.setAngularObservations_Lefthanded();
+        const char* ids[3] = {"S", "T", "F"};
+        double xs[3] = {0.0, vp::unhex(t[6]), vp::unhex(t[8])};
+        double ys[3] = {0.0, vp::unhex(t[7]), vp::unhex(t[9])};
+        for (int k = 0; k < 3; k++) {
+          LocalPoint& p = PD[PointID(ids[k])];
+          p.set_xy(xs[k], ys[k]);
+          p.set_fixed_xy();
+        }
+        StandPoint sp(&OD);
+        sp.station = PointID("S");
+        sp.set_orientation(vp::unhex(t[5]));
+        LocalLinearization lin(PD, 10);
+        std::unique_ptr<Observation> o;
+        double val = vp::unhex(t[4]);
+        if      (t[1] == "Direction") o.reset(new Direction(PointID("S"), PointID("T"), val));
+        else if (t[1] == "Angle")     o.reset(new Angle(PointID("S"), PointID("T"), PointID("F"), val));
+        else if (t[1] == "Azimuth")   o.reset(new Azimuth(PointID("S"), PointID("T"), val));
+        else { std::cout << "bad-op\n"; continue; }
+        o->set_cluster(&sp);
+        o->accept(&lin);
+        std::cout << "lin " << vp::hex(o->value()) << " " << vp::hex(lin.rhs) << " " << vp::hex(PD.xNorthAngle()) << "\n";
+        sp.observation_list.clear();
+      } catch (...) {
+        std::cout << "throw\n";
+      }
     } else if (t[0] == "flip" && t.size() >= 2) {
       std::unique_ptr<LocalNetwork> IS(new LocalNetwork);
       std::ifstream inp(t[1]);
